@@ -74,6 +74,13 @@ class Builder:
         if isinstance(e, Orphan):
             if e.kind == 0:
                 return h.Signal(name="orph", width=e.w)
+            if e.kind == 2:
+                # owned by a module of THIS design that was built (and will be elaborated) before its user: a child's port / signal
+                for mm in self.mcache.values():
+                    if mm is not m:
+                        for sig in list(mm.ports.values()) + list(mm.signals.values()):
+                            if sig.width == e.w:
+                                return sig
             other = h.Module(name="Other")
             return other.add(h.Signal(name="stolen", width=e.w))
         if isinstance(e, Anon):
